@@ -459,3 +459,20 @@ Theorem C20_bridge_stereo_molecule_double_bonds_example :
   translate_env (fun _ => false) (4, 5, Some 6, Some 1) 1 4 false = Ok true.
 Proof. exact double_bonds_example. Qed.
 Print Assumptions C20_bridge_stereo_molecule_double_bonds_example.
+
+(* ---- conformers as the code builds them from the dictionaries of data._conformers ---- *)
+(* dictionaries holding exactly the atoms in enumeration order give the list model [to_conformers] of the round-trip theorems *)
+Theorem C20_conformers_dict_refines : forall nums xy confs,
+  NoDup nums -> (forall ps, In ps confs -> List.length ps = List.length nums) ->
+  to_conformers_dict nums xy (map (combine nums) confs) = Ok (to_conformers xy confs).
+Proof. exact conformers_dict_refines. Qed.
+Print Assumptions C20_conformers_dict_refines.
+
+(* a dictionary that misses the last atom raises (AddConformer), one that misses an earlier atom is zero-filled, an unknown
+   key raises KeyError *)
+Theorem C20_conformers_dict_malformed :
+  to_conformers_dict [1; 2; 3] [] [[(1, (1, 2, 3)); (2, (4, 5, 6))]] = Err OtherError /\
+  to_conformers_dict [1; 2; 3] [] [[(3, (1, 2, 3))]] = Ok [(false, []); (true, [(0, 0, 0); (0, 0, 0); (1, 2, 3)])] /\
+  to_conformers_dict [1; 2; 3] [] [[(1, (1, 2, 3)); (4, (0, 0, 0))]] = Err KeyError.
+Proof. exact conformers_dict_malformed. Qed.
+Print Assumptions C20_conformers_dict_malformed.
